@@ -548,6 +548,12 @@ def run(check):
         jsguards.rule_map_table(c, R7, nsm, sm)
 
     check.guarded(R7, table)
+    # "through chained maps: the pre-transpilation file and line": the map the JS side caches is the one
+    # chain_source_maps composed, so the composition rule is a necessary condition here as well (seed
+    # C11-chain-sources-deduped-by-basename: right line, wrong original file)
+    from . import c10 as _c10
+
+    check.guarded("CHAIN-WIRING", _c10.rule_chain)
     return {
         "explanation": "Rules over the ESTree of the three JS files (parsed with the repository's own swc parser; nothing is executed): constants and status literals against the Rust side, every structural path of CacheRewriter.rewrite must update the cache entry of the file it rewrote, who writes the cache, index arithmetic of the lookup, pass-through and try/catch wrappers, and the wiring of the stack-trace wrapper.",
         "assumptions": ["node_source_map.js (vendored Node source-map implementation) findEntry semantics", "V8 CallSite API"],
